@@ -17,6 +17,18 @@ CHECKS = {
                      "compared call by call with libstdc++'s std::string_view on the same bytes under ASan; exceptions compared by type, "
                      "process termination counts as mismatch. Complete enumeration of that finite space, no sampling.",
                 note="libstdc++ std::string_view as reference; alphabet and length bound; calls only where std::string_view is defined"),
+    "C14": dict(engine="venum", technique=E3 + "; chunking independence by exhaustive single-split confluence over every buffer fill (state-machine induction)", design="4/C14",
+                text="Every message length 0..1100 (quick 0..300) of three byte families plus long messages through all 10 API forms of MD5/SHA-1/SHA-256/SHA-512 "
+                     "vs Python hashlib; every (prefix a, chunk n1, chunk n2) with a+n1+n2 <= 2*block+9 checked for equality of the internal digest state "
+                     "with the unsplit call (all partitions follow by induction, the state machine branches only on buffer fill); SipHash plain/sse2/dispatch "
+                     "vs an independent paper-derived reference on 147 keys x len 0..80 x 16 alignments + the 64 official vectors. Complete enumeration of that space.",
+                note="hashlib/OpenSSL as reference; SipHash reference validated on the official vectors; not all 2^128 keys / longer messages"),
+    "C15": dict(engine="venum", technique=E3 + "; zero-one principle with its obliviousness hypothesis checked by recording compare-exchange functors", design="4/C15",
+                text="For the three network families and every n in 0..16: all 2^n zero-one inputs through the size-specific sortN and the dispatching sort(), "
+                     "sorted output required; the recorded (index,index) compare-exchange sequence must be identical for all inputs and inside [0,n) "
+                     "(hypothesis of the zero-one principle, which extends the result to every input and strict weak order); additionally all n! permutations "
+                     "(n<=9 quick / 11 thorough) and all 3-key inputs with tags under less and greater. Exhaustive, ASan on.",
+                note="zero-one principle (Knuth 5.3.4 Thm Z); obliviousness checked for the int instantiation of the template"),
 }
 
 NA = {}
